@@ -5,15 +5,14 @@ from k1 import Unit
 class EventLoop(Unit):
     """real manual_event_loop / single_thread_context vs coq/Proto/EventLoopDefs.v"""
     name = "event_loop/EventLoop"; driver = "k1_event_loop"; cfg = "shim17"; handler = "eventloop"
-    maxruns = {"quick": 800, "thorough": 40000}
+    maxruns = {"quick": 600, "thorough": 40000}
     nrandom = {"quick": 80, "thorough": 2000}
     def programs(self, tier):
         if tier == "quick":
-            return [("ctx", "1", "-"), ("ctx", "2", "1.0"), ("ctx", "1,1", "-"), ("ctx", "1,1", "2.0"),
-                    ("ctx", "2,1", "1.1"), ("ctx", "1,1,1", "-"), ("ctx", "2,2", "-"), ("ctx", "2,1,1", "3.0"),
+            return [("ctx", "2", "1.0"), ("ctx", "1,1", "2.0"), ("ctx", "2,1", "1.1"), ("ctx", "1,1,1", "-"),
+                    ("ctx", "2,2", "-"), ("ctx", "2,1,1", "3.0"),
                     ("ctxw", "1", "-"), ("ctxw", "1,1", "1.0"), ("ctxw", "2,1", "-"),
-                    ("loop", "1", "-"), ("loop", "2", "1.1"), ("loop", "1,1", "-"), ("loop", "2,1", "2.0"),
-                    ("loop", "1,1,1", "-")]
+                    ("loop", "1", "-"), ("loop", "2", "1.1"), ("loop", "1,1", "-"), ("loop", "2,1", "2.0")]
         progs = []
         for mode in ("ctx", "ctxw", "loop"):
             for counts in ("1", "2", "3", "1,1", "2,1", "2,2", "1,1,1", "2,1,1", "2,2,1", "2,2,2", "1,1,1,1", "3,2"):
@@ -66,14 +65,14 @@ class EventLoop(Unit):
 class AtomicQueue(Unit):
     """real atomic_intrusive_queue<Item,&Item::next> vs coq/Proto/AtomicQueueDefs.v"""
     name = "atomic_queue/AtomicQueue"; driver = "k1_atomic_queue"; cfg = "shim17"; handler = "atomicqueue"
-    maxruns = {"quick": 800, "thorough": 40000}
-    nrandom = {"quick": 100, "thorough": 2000}
+    maxruns = {"quick": 600, "thorough": 40000}
+    nrandom = {"quick": 80, "thorough": 2000}
     def programs(self, tier):
         if tier == "quick":
-            return [("active", "1", "MF"), ("active", "2", "MMF"), ("active", "1,1", "MF"), ("active", "1,1", "MMF"),
-                    ("active", "2,1", "MDMF"), ("active", "1,1,1", "MMF"), ("active", "2,2", "IDMF"),
-                    ("active", "1,1", "IADF"), ("active", "1,1", "DDF"), ("inactive", "1,1", "MF"),
-                    ("inactive", "2,1", "DMF"), ("inactive", "1", "AMF"), ("active", "2,1,1", "MMMF")]
+            return [("active", "2", "MMF"), ("active", "1,1", "MMF"), ("active", "2,1", "MDMF"),
+                    ("active", "1,1,1", "MMF"), ("active", "2,2", "IDMF"), ("active", "1,1", "IADF"),
+                    ("inactive", "1,1", "MF"), ("inactive", "2,1", "DMF"), ("inactive", "1", "AMF"),
+                    ("active", "2,1,1", "MMMF")]
         progs = []
         for init in ("active", "inactive"):
             for counts in ("1", "2", "3", "1,1", "2,1", "2,2", "1,1,1", "2,1,1", "2,2,2", "3,3", "1,1,1,1"):
@@ -108,12 +107,12 @@ class AtomicQueue(Unit):
 class ThreadPool(Unit):
     """real static_thread_pool vs coq/Proto/ThreadPoolDefs.v"""
     name = "thread_pool/ThreadPool"; driver = "k1_thread_pool"; cfg = "shim17"; handler = "threadpool"
-    maxruns = {"quick": 700, "thorough": 40000}
-    nrandom = {"quick": 100, "thorough": 3000}
+    maxruns = {"quick": 450, "thorough": 40000}
+    nrandom = {"quick": 60, "thorough": 3000}
     def programs(self, tier):
         if tier == "quick":
-            return [("dtor", "1", "1"), ("dtor", "1", "1,1"), ("dtor", "2", "1"), ("dtor", "2", "1,1"), ("dtor", "2", "2,1"),
-                    ("dtor", "2", "1,1,1"), ("dtor", "3", "1,1"), ("race", "1", "1"), ("race", "2", "1,1"), ("race", "2", "2")]
+            return [("dtor", "1", "1,1"), ("dtor", "2", "1"), ("dtor", "2", "1,1"), ("dtor", "2", "2,1"),
+                    ("dtor", "3", "1,1"), ("race", "1", "1"), ("race", "2", "1,1"), ("race", "2", "2")]
         progs = []
         for mode in ("dtor", "race"):
             for k in ("1", "2", "3"):
@@ -153,4 +152,58 @@ class ThreadPool(Unit):
             return "model executed+queued != items: " + summary
         if prog[0] == "dtor" and qu:
             return "items left in a queue: " + summary
+        return None
+
+class NewThread(Unit):
+    """real new_thread_context vs coq/Proto/NewThreadDefs.v"""
+    name = "new_thread/NewThread"; driver = "k1_new_thread"; cfg = "shim17"; handler = "newthread"
+    maxruns = {"quick": 500, "thorough": 40000}
+    nrandom = {"quick": 60, "thorough": 3000}
+    def programs(self, tier):
+        if tier == "quick":
+            return [("1", "-"), ("2", "1.0"), ("1,1", "-"), ("1,1", "2.0"), ("2,1", "-"), ("1,1,1", "1.0")]
+        return [(c, st) for c in ("1", "2", "3", "1,1", "2,1", "2,2", "1,1,1", "2,1,1", "1,1,1,1")
+                for st in ("-", "1.0")]
+    def model_args(self, prog):
+        return "%s %s" % (prog[0], prog[1])
+    def project(self, prog, events):
+        counts = [int(x) for x in prog[0].split(",")]
+        p = len(counts)
+        offs = [sum(counts[:i]) for i in range(p)]
+        # which operation does each created thread run?  (its first event locks that operation's mutex)
+        ren = {}
+        for e in events:
+            m = re.match(r"t(\d+) op(\d+)\.(\d+)\.mutex ML", e)
+            if m and int(m.group(1)) > p and int(m.group(1)) not in ren:
+                ren[int(m.group(1))] = p + 1 + offs[int(m.group(2)) - 1] + int(m.group(3))
+        out = []
+        for e in events:
+            m = re.match(r"t(\d+) (\S+) ?(.*)$", e)
+            t, name, rest = int(m.group(1)), m.group(2), m.group(3)
+            t = ren.get(t, t)
+            if name == "nt.count":
+                out.append((t, "count " + rest))
+            elif name == "nt.mutex":
+                out.append((t, "cm " + rest.split(".")[0]))
+            elif name == "nt.cv":
+                out.append((t, "cv " + rest.split(".")[0]))
+            elif name == "nt.tojoin":
+                out.append((t, "join"))
+            elif re.match(r"op\d+\.\d+\.mutex$", name):
+                out.append((t, "op %s %s" % (name[2:-6], rest.split(".")[0])))
+            elif name.startswith("st"):
+                mm = re.match(r"L\.acq (\d+)", rest)
+                if mm:
+                    out.append((t, "obs %s %d" % (name[2:], int(mm.group(1)) & 1)))
+            elif name == "!run":
+                out.append((t, "run " + rest.split(" new=")[0]))
+        return out
+    def post_check(self, prog, summary, proj):
+        if "final=1" not in summary:
+            return "model not final at the end of a complete implementation run: " + summary
+        total = sum(int(x) for x in prog[0].split(","))
+        m = re.search(r"count=(\d+) completed=(\S*) retired=(\S*)", summary)
+        if int(m.group(1)) != 0 or len([x for x in m.group(2).split(",") if x]) != total or \
+           len([x for x in m.group(3).split(",") if x]) != total:
+            return "model: not every thread completed/retired: " + summary
         return None
